@@ -31,7 +31,8 @@ type Draw struct {
 // at index level. It is never a property violation.
 type Inconclusive struct{ Why string }
 
-func (e *Inconclusive) Error() string { return "inconclusive: " + e.Why }
+func (e *Inconclusive) Error() string      { return "inconclusive: " + e.Why }
+func (e *Inconclusive) Inconclusive() bool { return true }
 
 // Session runs one call of the code under test.
 type Session struct {
